@@ -63,8 +63,7 @@ func (r *Run) loopsComplete(rule string, fn *Func, path *Path) {
 				break
 			}
 		}
-		rs := ev.Stmt.(*ast.RangeStmt)
-		r.CheckT(rule, fn.Name+":loop-complete["+r.P.Canon(ev.Fn, rs.X)+"]", back, ev.Pos, path, "the loop over %s is left before every element was visited (break or early return)", r.P.Canon(ev.Fn, rs.X))
+		r.CheckT(rule, fn.Name+":loop-complete["+r.P.Canon(ev.Fn, ev.Over)+"]", back, ev.Pos, path, "the loop over %s is left before every element was visited (break or early return)", r.P.Canon(ev.Fn, ev.Over))
 	}
 }
 
@@ -333,8 +332,7 @@ func (r *Run) checkListing(fn *Func, over string, rule string) {
 			if ev.Kind != EvGuard || ev.GKind != GRange || !ev.Val {
 				continue
 			}
-			rs := ev.Stmt.(*ast.RangeStmt)
-			if r.P.Canon(fn, rs.X) != over {
+			if r.P.Canon(ev.Fn, ev.Over) != over {
 				continue
 			}
 			iter++
@@ -544,8 +542,7 @@ func ruleSubscriptions(r *Run) {
 			// ids handed over are the keys of this type's subscriber set
 			for i, ev := range path.Events {
 				if ev.Kind == EvGuard && ev.GKind == GRange && ev.Val {
-					rs := ev.Stmt.(*ast.RangeStmt)
-					r.CheckT("S-Notify", fn.Name+":ids-from-set", r.P.Canon(fn, rs.X) == subs, ev.Pos, path, "the recipient ids are the keys of the type's subscriber set")
+					r.CheckT("S-Notify", fn.Name+":ids-from-set", r.P.Canon(ev.Fn, ev.Over) == subs, ev.Pos, path, "the recipient ids are the keys of the type's subscriber set")
 					appended := false
 					for j := i + 1; j < len(path.Events); j++ {
 						pe := path.Events[j]
@@ -677,8 +674,7 @@ func ruleBroadcastShape(r *Run) {
 				if ev.Kind != EvGuard || ev.GKind != GRange {
 					continue
 				}
-				rs := ev.Stmt.(*ast.RangeStmt)
-				r.CheckT("C3", fn.Name+":range", r.P.Canon(fn, rs.X) == "recv.participants", ev.Pos, path, "Broadcast iterates the session's own participant map")
+				r.CheckT("C3", fn.Name+":range", r.P.Canon(ev.Fn, ev.Over) == "recv.participants", ev.Pos, path, "Broadcast iterates the session's own participant map")
 				if !ev.Val {
 					continue
 				}
@@ -746,8 +742,7 @@ func ruleBroadcastShape(r *Run) {
 				if ev.Kind != EvGuard || ev.GKind != GRange {
 					continue
 				}
-				rs := ev.Stmt.(*ast.RangeStmt)
-				over := r.P.Canon(fn, rs.X)
+				over := r.P.Canon(ev.Fn, ev.Over)
 				member := ""
 				switch over {
 				case overA:
@@ -1450,9 +1445,8 @@ func ruleFramePair(r *Run) {
 					r.CheckT("E6", fn.Name+":exit-on-close-only", okExit, ev.Pos, path, "the frame worker ends only when the session's stop signal arrives")
 				}
 				if ev.Kind == EvGuard && ev.GKind == GRange && ev.Val {
-					rs := ev.Stmt.(*ast.RangeStmt)
 					ticks++
-					r.CheckT("E6", fn.Name+":serves-registered", r.P.Canon(ev.Fn, rs.X) == "recv.frameHandlers" && held[i]["Session.frameMutex"] != "", ev.Pos, path,
+					r.CheckT("E6", fn.Name+":serves-registered", r.P.Canon(ev.Fn, ev.Over) == "recv.frameHandlers" && held[i]["Session.frameMutex"] != "", ev.Pos, path,
 						"on each tick the worker walks the session's current frame-callback table itself, holding the registration lock (a copy or a cache would miss a newly joined member or call one that has left)")
 					for j := i + 1; j < len(path.Events); j++ {
 						pe := path.Events[j]
